@@ -1,0 +1,301 @@
+//! Verification seams (compiled only with `--cfg zinoma_verif`).
+//!
+//! Every function here is a pass-through unless a [`World`] has been installed on the
+//! calling thread by an external harness. This file contains no checking logic.
+#![allow(dead_code)]
+use crate::domain::TargetId;
+use async_std::channel::{self, Receiver, Sender};
+use std::cell::RefCell;
+use std::future::Future;
+use std::io;
+use std::pin::Pin;
+use std::process::ExitStatus;
+use std::sync::Arc;
+
+pub type BoxFut<T> = Pin<Box<dyn Future<Output = T> + Send>>;
+
+#[derive(Clone, Copy, Debug, PartialEq, Eq, Hash, PartialOrd, Ord)]
+pub enum Slot {
+    Termination,
+    Invalidation,
+    Inbox,
+}
+
+#[derive(Clone, Copy, Debug, PartialEq, Eq, Hash)]
+pub enum ProcKind {
+    Build,
+    Service,
+}
+
+/// Named points of the incremental build cycle.
+pub mod points {
+    /// Decided to run the script; the previous record is not deleted yet.
+    pub const DECIDED: u8 = 0;
+    /// The previous record has been deleted.
+    pub const DELETED: u8 = 1;
+    /// The script completed; the new state is not computed yet.
+    pub const SCRIPT_DONE: u8 = 3;
+    /// The new state is computed; the record file is not created yet.
+    pub const STATE_COMPUTED: u8 = 4;
+    /// The record has been written (or writing failed).
+    pub const SAVED: u8 = 6;
+}
+
+pub trait VChild: Send + Sync {
+    fn kill(&self) -> io::Result<()>;
+    fn status(&self) -> BoxFut<io::Result<ExitStatus>>;
+}
+
+pub trait World: Send + Sync {
+    /// Takes over the actor future; returns the future async-std spawns instead.
+    fn spawn_actor(&self, id: &TargetId, fut: BoxFut<()>) -> BoxFut<()>;
+    fn register_pump(
+        &self,
+        id: &TargetId,
+        slot: Slot,
+        pump: Box<dyn FnMut() -> Option<String> + Send>,
+        len: Box<dyn Fn() -> usize + Send>,
+    );
+    fn before_send(&self, id: &TargetId) -> BoxFut<()>;
+    fn after_send(&self, id: &TargetId);
+    /// `None`: run the real process.
+    fn spawn_child(&self, id: &TargetId, kind: ProcKind) -> Option<io::Result<Arc<dyn VChild>>>;
+    fn busy(&self, id: &TargetId, on: bool);
+    fn point(&self, id: &TargetId, point: u8) -> BoxFut<()>;
+    fn inbox_cap(&self) -> Option<usize>;
+    /// `true`: the harness delivers file notifications itself; no OS watcher is created.
+    fn virtual_watch(&self) -> bool;
+    fn register_notifier(&self, id: &TargetId, notify: Box<dyn Fn() -> bool + Send>);
+    /// `true`: scheduling-only run, the record on disk is neither read nor written.
+    fn bypass_incremental(&self) -> bool;
+    /// Number of bytes of the record the next state write may produce before failing.
+    fn write_limit(&self, id: &TargetId) -> Option<u64>;
+    /// Order (indices into `requesters`) in which a fan-out is sent.
+    fn requester_order(&self, id: &TargetId, requesters: &[String]) -> Vec<usize>;
+}
+
+thread_local! {
+    static WORLD: RefCell<Option<Arc<dyn World>>> = RefCell::new(None);
+}
+
+pub fn install(world: Option<Arc<dyn World>>) {
+    WORLD.with(|w| *w.borrow_mut() = world);
+}
+
+pub fn world() -> Option<Arc<dyn World>> {
+    WORLD.with(|w| w.borrow().clone())
+}
+
+// ---- executor shell -------------------------------------------------------------------
+
+pub struct Shell(BoxFut<()>);
+
+impl Shell {
+    pub fn new(id: &TargetId, fut: BoxFut<()>) -> Self {
+        match world() {
+            Some(w) => Shell(w.spawn_actor(id, fut)),
+            None => Shell(fut),
+        }
+    }
+    pub fn run(self) -> BoxFut<()> {
+        self.0
+    }
+}
+
+// ---- pumps ----------------------------------------------------------------------------
+
+pub fn interpose<T: Send + 'static>(
+    id: &TargetId,
+    slot: Slot,
+    rx: Receiver<T>,
+    describe: fn(&T) -> String,
+) -> Receiver<T> {
+    match world() {
+        None => rx,
+        Some(w) => {
+            let (tx2, rx2) = channel::bounded::<T>(1);
+            let rx_len = rx.clone();
+            let pump = Box::new(move || match rx.try_recv() {
+                Ok(m) => {
+                    let d = describe(&m);
+                    tx2.try_send(m).ok().expect("pump: stage full");
+                    Some(d)
+                }
+                Err(_) => None,
+            });
+            w.register_pump(id, slot, pump, Box::new(move || rx_len.len()));
+            rx2
+        }
+    }
+}
+
+/// Substitutes a smaller bounded channel, only if the original one is bounded.
+pub fn inbox_channel<T>(tx: Sender<T>, rx: Receiver<T>) -> (Sender<T>, Receiver<T>) {
+    if let (Some(w), Some(_)) = (world(), tx.capacity()) {
+        if let Some(cap) = w.inbox_cap() {
+            return channel::bounded(cap);
+        }
+    }
+    (tx, rx)
+}
+
+pub fn virtual_watch(
+    opt: crate::engine::WatchOption,
+    id: &TargetId,
+    notify: Box<dyn Fn() -> bool + Send>,
+) -> crate::engine::WatchOption {
+    match world() {
+        Some(w) if w.virtual_watch() => {
+            if let crate::engine::WatchOption::Enabled = opt {
+                w.register_notifier(id, notify);
+            }
+            crate::engine::WatchOption::Disabled
+        }
+        _ => opt,
+    }
+}
+
+// ---- send gate, requester order -------------------------------------------------------
+
+pub async fn before_send(id: &TargetId) {
+    if let Some(w) = world() {
+        w.before_send(id).await
+    }
+}
+
+pub fn after_send(id: &TargetId) {
+    if let Some(w) = world() {
+        w.after_send(id)
+    }
+}
+
+pub fn ordered<T: Clone + std::fmt::Debug>(id: &TargetId, items: Vec<T>) -> Vec<T> {
+    match world() {
+        None => items,
+        Some(w) => {
+            let mut items = items;
+            items.sort_by_key(|i| format!("{:?}", i));
+            let names: Vec<String> = items.iter().map(|i| format!("{:?}", i)).collect();
+            let order = w.requester_order(id, &names);
+            order.into_iter().map(|i| items[i].clone()).collect()
+        }
+    }
+}
+
+// ---- incremental cycle: busy guard, named points, bypass, write limit ------------------
+
+pub struct Busy(Option<(Arc<dyn World>, TargetId)>);
+
+pub fn busy(id: &TargetId) -> Busy {
+    match world() {
+        Some(w) => {
+            w.busy(id, true);
+            Busy(Some((w, id.clone())))
+        }
+        None => Busy(None),
+    }
+}
+
+impl Drop for Busy {
+    fn drop(&mut self) {
+        if let Some((w, id)) = &self.0 {
+            w.busy(id, false)
+        }
+    }
+}
+
+pub async fn point(id: &TargetId, point: u8) {
+    if let Some(w) = world() {
+        w.point(id, point).await
+    }
+}
+
+pub fn bypass_incremental() -> bool {
+    world().map(|w| w.bypass_incremental()).unwrap_or(false)
+}
+
+pub fn write_limit(id: &TargetId) -> Option<u64> {
+    world().and_then(|w| w.write_limit(id))
+}
+
+/// Writer failing once `limit` bytes went through (the bytes before the limit are written).
+pub struct LimitedWriter<W: io::Write> {
+    inner: W,
+    left: Option<u64>,
+}
+
+impl<W: io::Write> LimitedWriter<W> {
+    pub fn new(inner: W, limit: Option<u64>) -> Self {
+        Self { inner, left: limit }
+    }
+}
+
+impl<W: io::Write> io::Write for LimitedWriter<W> {
+    fn write(&mut self, buf: &[u8]) -> io::Result<usize> {
+        match self.left {
+            None => self.inner.write(buf),
+            Some(0) => Err(io::Error::new(io::ErrorKind::Other, "verif: write limit")),
+            Some(left) => {
+                let n = std::cmp::min(left as usize, buf.len());
+                let written = self.inner.write(&buf[..n])?;
+                self.left = Some(left - written as u64);
+                Ok(written)
+            }
+        }
+    }
+    fn flush(&mut self) -> io::Result<()> {
+        self.inner.flush()
+    }
+}
+
+// ---- virtual processes ----------------------------------------------------------------
+
+pub struct Command {
+    real: async_process::Command,
+    virt: Option<(Arc<dyn World>, TargetId, ProcKind)>,
+}
+
+impl Command {
+    pub fn wrap(real: async_process::Command, id: &TargetId, kind: ProcKind) -> Self {
+        Self {
+            real,
+            virt: world().map(|w| (w, id.clone(), kind)),
+        }
+    }
+    pub fn stdout<T: Into<std::process::Stdio>>(&mut self, cfg: T) -> &mut Self {
+        self.real.stdout(cfg);
+        self
+    }
+    pub fn stderr<T: Into<std::process::Stdio>>(&mut self, cfg: T) -> &mut Self {
+        self.real.stderr(cfg);
+        self
+    }
+    pub fn spawn(&mut self) -> io::Result<Child> {
+        if let Some((w, id, kind)) = &self.virt {
+            if let Some(result) = w.spawn_child(id, *kind) {
+                return result.map(Child::Virtual);
+            }
+        }
+        self.real.spawn().map(Child::Real)
+    }
+}
+
+pub enum Child {
+    Real(async_process::Child),
+    Virtual(Arc<dyn VChild>),
+}
+
+impl Child {
+    pub fn kill(&mut self) -> io::Result<()> {
+        match self {
+            Child::Real(c) => c.kill(),
+            Child::Virtual(c) => c.kill(),
+        }
+    }
+    pub fn status(&mut self) -> BoxFut<io::Result<ExitStatus>> {
+        match self {
+            Child::Real(c) => Box::pin(c.status()),
+            Child::Virtual(c) => c.status(),
+        }
+    }
+}
